@@ -1358,7 +1358,6 @@ func indexRabinKarpUnicode(s, substr string) int {
 	var h uint32
 	sz := 0 // byte size of 'n' runes
 	for i, r := range s {
-		orig := r
 		if r < utf8.RuneSelf {
 			r = rune(_lower[r])
 		} else {
@@ -1367,7 +1366,10 @@ func indexRabinKarpUnicode(s, substr string) int {
 		h = h*primeRK + uint32(r)
 		n--
 		if n == 0 {
-			sz = i + utf8.RuneLen(orig)
+			// NB: can't use utf8.RuneLen(orig) here since it is 3 for
+			// utf8.RuneError, but an invalid byte is 1 byte wide.
+			_, size := utf8.DecodeRuneInString(s[i:])
+			sz = i + size
 			break
 		}
 	}
